@@ -72,5 +72,29 @@ META.update({
                 note=TRUSTED + '; the relation vocabulary (greater than / at least / less or equal to / ...) is the reading of the English phrases'),
 })
 
+META.update({
+    'C02': dict(level='translation_validation', design_ref='DESIGN.md 4.2 R-BOUND/R-SAN/R-VAL, 4.4 G-SPEC/G-LWW, 5/C02',
+                technique='MIR guard-program extraction over a spelling x layout corpus vs the value each spelling denotes; compile verdicts for forms that must be refused; lints on the attribute parser',
+                text='Every bound spelling (literals of both signs, underscores, int literal for float, exponent floats, T::MIN/MAX, constants, -CONST, parenthesised / shift / arithmetic expressions, calls) x attribute layout (block order, trailing commas, closure vs path, regex literal vs static) '
+                     'is expanded and the extracted guard program must contain every written rule with the bound the spelling denotes (constants folded by rustc and by the checker). Repeated blocks must be refused or all enforced. '
+                     'Parser lints: no speculative parse on the live token stream followed by another alternative (G-SPEC); no unguarded last-writer-wins assignment in the attribute loop (G-LWW).',
+                note=TRUSTED),
+    'C08': dict(level='other', design_ref='DESIGN.md 5/C08, Appendix A',
+                technique='rustc accept/reject verdicts over a declaration grid vs an independent reference predicate; folding of the generated #[test] bodies (cfg(test) MIR)',
+                text='~590 declarations generated from the documented grammar (derive matrix 22 traits x 4 families x validation x finite x feature set; struct shapes; unknown / wrong-family / wrong-case names; duplicates; literal bounds in every relative position; with/error pairing; regex; flags; type-parameter names) '
+                     'are compiled one by one and the verdict compared with the reference predicate; every corpus declaration the model accepts must expand. The generated boundary/default unit tests are compiled in test mode and their bodies folded: they must fail exactly for contradictory expression bounds / invalid defaults.',
+                note=TRUSTED + '; the reference predicate is written from README/docs (Appendix A), cells where docs and code disagree without a guarantee at stake are unasserted'),
+    'C11': dict(level='other', design_ref='DESIGN.md 5/C11',
+                technique='term rewriting of the extracted sanitizer chain (S o S = S under named std lemmas) + purity of the extracted checks + re-entry table comparison',
+                text='PARTIAL. For declarations with built-in guards only: the stored value is a chain of built-in sanitizers; the chain applied twice reduces to itself under lemmas L1-L3 about std (trim / case mapping idempotent, case mapping preserves the absence of outer whitespace); '
+                     'every check is a recognised test of the stored value through pure std callees; re-entering the constructor with the stored value evaluates the same checks. The Unicode lemmas themselves are assumptions; custom sanitizers are covered by the premise.',
+                note=TRUSTED + '; lemmas L1-L3 (Unicode data) are assumed, not analysed'),
+    'C15': dict(level='other', design_ref='DESIGN.md 4.2 R-NOSTD, 4.4 G-STD, 5/C15',
+                technique='compile verdict of a #![no_std] corpus crate (stable + nightly) against nutype with default features off; resolved-path scan of its MIR; lint of quote! templates for std paths',
+                text='A #![no_std] crate with integer / float / other declarations (every derivable trait alone and in full sets, serde and Arbitrary, const_fn, default, custom error, generics) compiles against nutype with default-features = false; '
+                     'every type, callee and trait its generated code resolves to lives outside `std`; every `std::` path in a quote! template of the generator is on an allow-list with its cfg context verified. A control witness shows the setup rejects a std path.',
+                note=TRUSTED + '; the cfg(not(ERROR_IN_CORE)) branch (rustc < 1.81) cannot be built here and is covered syntactically only'),
+})
+
 NOT_YET = {
 }
